@@ -38,6 +38,8 @@ DEFAULT_OPTS = dict(
     cond_prob=0.3,  # probability that an effect is conditional (when `conditional`)
     op_bias=None,  # {connective: extra weight} -- makes a compiler's own feature frequent in its corpus
     static_guards=0.0,  # probability that an action gets positive preconditions over STATIC Boolean fluents of its parameters
+    inv_prob=0.3,  # probability that a problem has a state invariant (when `invariants`)
+    inv_forall=0.3,  # probability that the invariant is universally quantified (half of them written Forall v. Always(...))
     incdec_plain_cond=0.0,  # probability that the condition of a conditional increase/decrease is a conjunction of literals
 )
 
@@ -115,8 +117,18 @@ class Gen:
             self.add_static_guards()
         P["goals"] = [self.bool_expr(2, {}, {}) for _ in range(r.randint(1, 2))]
         P["invariants"] = []
-        if o["invariants"] and r.random() < 0.3:
+        if o["invariants"] and r.random() < o["inv_prob"]:
             inv = self.bool_expr(1, {}, {}, noconst=True)
+            if o["quantifiers"] and r.random() < o["inv_forall"]:
+                # a universally quantified invariant, half of the time written as Forall v. Always(...)
+                t = self.type_of(r.choice(P["types"])["name"])
+                for _ in range(6):
+                    body = self.bool_expr(1, {}, {"u0": t}, noconst=True)
+                    if "'u0'" in repr(body):
+                        break
+                inv = E("forall", [body], vars_=[{"name": "u0", "type": t}])
+                if r.random() < 0.5:
+                    P["inv_outside"] = True
             P["invariants"].append(inv)
         P["traj"] = []
         if o["traj"]:
